@@ -292,8 +292,19 @@ package fiber
 // the next position. Merging must not write into a backing array that already exists (routes registered
 // together share their handler slice).
 //@ fn methodIdx(app ref, s string, ep int) int
-//@ func (*App).methodInt assumed pure
-//@   ensures result == methodIdx(app, s, epoch) && -1 <= result && result < len(app.config.RequestMethods)
+// methodInt: the index of the method in the configured method table (the same table that sizes the route
+// stacks), -1 if it is not a configured method. The fast path relies on the default table.
+//@ macro defaultMethodTable(app) = len(app.config.RequestMethods) == 9 && app.config.RequestMethods[0] == "GET" && app.config.RequestMethods[1] == "HEAD" &&
+//@ ..  app.config.RequestMethods[2] == "POST" && app.config.RequestMethods[3] == "PUT" && app.config.RequestMethods[4] == "DELETE" && app.config.RequestMethods[5] == "CONNECT" &&
+//@ ..  app.config.RequestMethods[6] == "OPTIONS" && app.config.RequestMethods[7] == "TRACE" && app.config.RequestMethods[8] == "PATCH"
+//@ func (*App).methodInt
+//@   props C01 C07
+//@   pure
+//@   defines result == methodIdx(app, s, epoch)
+//@   assumes default-table-when-unconfigured: len(app.configured.RequestMethods) == 0 ==> defaultMethodTable(app)
+//@   ensures in-table-range: -1 <= result && result < len(app.config.RequestMethods)
+//@   ensures index-of-the-method: result >= 0 ==> app.config.RequestMethods[result] == s
+//@   ensures minus-one-iff-not-configured: result == -1 ==> forall(k, 0, len(app.config.RequestMethods), app.config.RequestMethods[k] != s)
 //@ func (*Hooks).executeOnRouteHooks assumed pure
 //@ macro lastOf(app, m) = old(app.stack[m])[old(len(app.stack[m])) - 1]
 //@ macro mergeable(app, m, route) = old(len(app.stack[m])) > 0 && old(lastOf(app, m).Path) == old(route.Path) && old(route.use) == old(lastOf(app, m).use) && !old(route.mount) && !old(lastOf(app, m).mount)
